@@ -43,6 +43,10 @@ func checkC01(p *Program, r *Report) {
 			checkNarrowAs(p, r, "C01.narrow", entry, F)
 		}
 	}
+	// a descent that does not handle stored step lengths is right only where inner prefixes are stored:
+	// dispatching to it on a weaker condition loses the keys below every step
+	r.Explanation += " (step-mode) a descent without step handling is reached only under a witness of stored inner prefixes (rule shared with C10)."
+	borrowRule(p, r, checkC10, "C10.step-mode", "C01.step-mode")
 }
 
 // ---------------------------------------------------------------------------
